@@ -190,3 +190,17 @@ Theorem C09_limit0_needed :
   fst (step h (OFindFirst (RProofs.ex_c, [QLimit 0]))) = T_ok (T_of_opt_doc (Some RProofs.ex_d1)).
 Proof. exact oq_limit0. Qed.
 Print Assumptions C09_limit0_needed.
+
+(* ---- from the abstract specification alone ---- *)
+From Clover Require Import CompositeSpec AbstractSpecProofs.
+Theorem C09_count_is_length_of_find_all_after_any_history : forall ops q mode nq,
+  hist_dom_all empty_db (ops ++ [OFindAll q mode; OCount q]) ->
+  normalize_query (mk_query q) = Some nq -> nq_skip nq = 0 -> nq_limit nq < 0 ->
+  exists ts0 t1 t2,
+    fst (run_ops empty_db (ops ++ [OFindAll q mode; OCount q])) = ts0 ++ [t1; t2] /\
+    ((exists e, t1 = T_err e /\ t2 = T_err e) \/
+     (exists res1 res2,
+        t1 = T_ok (T_of_docs (nq_sort nq) mode res1) /\ t2 = T_ok (TZ (Z.of_nat (length res2))) /\
+        Permutation res1 res2)).
+Proof. exact history_count_is_length_of_find_all. Qed.
+Print Assumptions C09_count_is_length_of_find_all_after_any_history.
